@@ -387,6 +387,14 @@ def gen_c09_extra(ctx, thorough):
         # (b) over-limit body: declared and actual
         wrap('body-declared', [{"op": "hdr", "sid": 3, "fields": hdrs(3, "POST", [dyn(k)], cl=5000), "es": False, "pad": -1},
                                {"op": "data", "sid": 3, "n": 100, "es": False, "pad": -1}], cfg={'maxBody': 1000}, k=k)
+        # ... the declared length standing BEFORE the fields that insert into the table (the rest of the block still counts)
+        for split in (None, [40]):
+            f = hdrs(3, "POST")
+            f = f[:4] + [["content-length", "5000"]] + f[4:] + [dyn(k), ["x-tail", "t"]]
+            st = {"op": "hdr", "sid": 3, "fields": f, "es": False, "pad": -1}
+            if split:
+                st["split"] = split
+            wrap('body-declared-first', [st, {"op": "data", "sid": 3, "n": 100, "es": False, "pad": -1}], cfg={'maxBody': 1000}, k=k)
         wrap('body-actual', req(3, body=3000, extra=[dyn(k)], chunks=[600, 600, 600, 600, 600]), cfg={'maxBody': 1000}, k=k)
         # (c) refused stream over the limit (two handlers running + one more), with inserts, block split
         wrap('refused', req(3, extra=[["x-o", "1"]]) + req(5, extra=[["x-o", "2"]]) + req(7, extra=[dyn(k)], split=[30]) + [finish(3), finish(5)], k=k)
@@ -428,6 +436,17 @@ def gen_c09_extra(ctx, thorough):
     return out
 
 
+def hpack_int(v, prefix, flags=0):
+    """RFC 7541 5.1 integer, as octets."""
+    lim = (1 << prefix) - 1
+    if v < lim:
+        return [flags | v]
+    out, v = [flags | lim], v - lim
+    while v >= 128:
+        out.append(0x80 | (v & 0x7f)); v >>= 7
+    return out + [v]
+
+
 def gen_c13_extra(ctx, thorough):
     rng = ctx.rng
     N = 600 if thorough else 150
@@ -439,6 +458,21 @@ def gen_c13_extra(ctx, thorough):
         sid = 1 + 2 * i
         steps += req(sid) + [{"op": "rst", "sid": sid, "code": 8}]
     out.append({'tag': 'rapid-reset', 'cfg': cfg, 'steps': steps})
+    # a refused (or malformed) request whose header block goes on and on: a field cut by the end of a frame is kept until
+    # the next frame completes it - a field that declares a megabyte is not worth keeping
+    for why in ('refused', 'malformed'):
+        for declared in (1 << 20, 100000):
+            lit = [0x00, 0x01, ord('x')] + hpack_int(declared, 7)          # literal without indexing, new name "x", value of `declared` octets
+            first = [0x82, 0x87, 0x84, 0x01, 0x06] + [ord(c) for c in "ex.com"]
+            if why == 'malformed':
+                first += [0x00, 0x01, ord('X'), 0x01, ord('1')]           # capital in a field name
+            steps = req(1) + req(3) + req(5)
+            if why == 'malformed':
+                steps = req(1)
+            steps += [{"op": "raw", "ty": 1, "fl": 1, "sid": 7, "payload": first + lit + [97] * 100}]
+            steps += [{"op": "raw", "ty": 9, "fl": 0, "sid": 7, "payload": [97] * 16000} for _ in range(40)]
+            steps += [{"op": "settle"}, finish(1, n=1)]
+            out.append({'tag': 'discard-cut-field', 'cfg': cfg, 'steps': steps})
     # streams left half-open (HEADERS without END_STREAM), never finished
     steps = []
     for i in range(N):
@@ -527,6 +561,12 @@ def gen_c14_extra(ctx, thorough):
                                                {"op": "data", "sid": sid, "n": 16000, "es": False, "pad": -1}]})
     steps += req(1001) + [finish(1001, n=1)]
     out.append({'tag': 'rejected-first-frame', 'cfg': {'maxConc': 4, 'maxBody': 1000}, 'steps': steps})
+    # DATA frames that carry padding and nothing else: 16384 x 256 octets are the whole stream window
+    steps = [{"op": "hdr", "sid": 1, "fields": hdrs(1, "POST"), "es": False, "pad": -1}]
+    for i in range(0, 16384, 512):
+        steps.append({"op": "burst", "steps": [{"op": "data", "sid": 1, "n": 0, "es": False, "pad": 255} for _ in range(512)]})
+    steps += [{"op": "data", "sid": 1, "n": 5, "es": True, "pad": -1}, finish(1, n=1)]
+    out.append({'tag': 'padding-only', 'cfg': {'maxConc': 4, 'maxOut': 40000}, 'steps': steps})
     # interleaved uploads on three streams, one of them reset by the peer half way
     steps = [{"op": "hdr", "sid": s, "fields": hdrs(s, "POST"), "es": False, "pad": -1} for s in (1, 3, 5)]
     for rnd in range(60):
@@ -773,9 +813,25 @@ FAM.update({
 })
 
 
+def gen_c20_letters(ctx, thorough):
+    """Every capital letter, and the octets either side of the range, in a field name - first, middle and last octet;
+    each such request is malformed and a good one follows on the same connection."""
+    out = []
+    for code in list(range(64, 92)) + [96, 123]:          # '@' 'A'..'Z' '[' and '`' '{' (neither capital nor legal token/legal)
+        ch = chr(code)
+        for name in ('x-%sone' % ch, '%sx' % ch, 'x%s' % ch):
+            if name[0] == ':':
+                continue
+            steps = req(1, extra=[["x-a", "b"]]) + [finish(1, n=1)]
+            steps += [{"op": "hdr", "sid": 3, "fields": hdrs(3, "GET", [[name, "1"]]), "es": True, "pad": -1}, finish(3, n=1)]
+            steps += req(5) + [finish(5, n=1)]
+            out.append({'tag': 'c20-letters', 'cfg': {'maxConc': 4, 'noconnerr': True}, 'steps': steps})
+    return out
+
+
 def gen_c20_bodies(ctx, thorough):
     """content-length against DATA as delivered: padding and empty frames do not count, every byte of data does."""
-    out = []
+    out = gen_c20_letters(ctx, thorough)
     for n, chunks in ((3, None), (10, [4, 0, 6]), (20000, [16000, 4000]), (1, [0, 1, 0])):
         for pad in (-1, 0, 4, 200):
             for delta in (0, 1, -1, 1 + max(pad, 0), 5 + max(pad, 0)):
